@@ -184,7 +184,27 @@ def run(ctx: Context) -> None:
         ctx.check('R06.3', ok, "midpoints = [v0 - gap0/2] + pairwise means + [vN + gapN/2] (both ends extended by half the adjacent gap)", b1, b1.node,
                   construct=f"1-D midpoints: {detail}")
         # 2-D synthesis
-        it2, src2 = interpret(ctx, b2, {'coordinate': ('cv', [Y, X])}, {'self.shape': [Y, X]})
+        it2, src2 = interpret(ctx, b2, {'coordinate': ('cv', [Y, X])}, {'self.shape': [Y, X]},
+                              env={'__axis_names__': ['self.y_dimension', 'self.x_dimension']})
+        # the centre values enter the synthesis in (y_dimension, x_dimension) order whatever order the coordinate is stored in
+        # (the two coordinates of one grid need not agree on it)
+        from ..pattern import Matcher as _M2
+        m2 = _M2(ctx, b2)
+        tr = m2.stmt('$c = $c.transpose(self.y_dimension, self.x_dimension)') or m2.stmt('$c2 = $c.transpose(self.y_dimension, self.x_dimension)')
+        reads = [n for n in ast.walk(b2.node) if isinstance(n, ast.Attribute) and n.attr in ('values', 'data', 'to_numpy')
+                 and flow2.canon(n.value) == ('param', b2.params[1])]
+        ok_tr = tr is not None and m2.name('c') == b2.params[1] and not reads and bool(getattr(it2, 'named_transposes', []))
+        conv = None
+        for alt in ('$vals = $c.values.astype(numpy.double)', '$vals = $c.values.astype(numpy.float64)', '$vals = $c.values.astype(float)',
+                    '$vals = numpy.array($c.values, dtype=numpy.double)', '$vals = numpy.array($c.values, dtype=float)',
+                    '$vals = numpy.asarray($c.values, dtype=numpy.double).copy()'):
+            conv = conv or m2.stmt(alt)
+        ctx.check('R06.3', conv is not None, "the centre values are converted to floating point (a fresh array) before they are padded with NaN: "
+                  "integer typed coordinates cannot hold the padding", b2, conv or b2.node,
+                  construct=f"conversion: {norm_text(conv) if conv is not None else 'absent (the stored dtype is kept)'}")
+        ctx.check('R06.3', ok_tr, "the centres of a coordinate are read in (y_dimension, x_dimension) order: the coordinate is transposed to those names before its values are taken "
+                  "(latitude(y, x) with longitude(x, y) would otherwise pair the latitudes of one cell with the longitudes of another)", b2, tr or b2.node,
+                  construct=f"values read from the untransposed parameter: {[norm_text(n) for n in reads] or 'none'}; transposition: {norm_text(tr) if tr is not None else 'absent'}")
         val = it2.returns[0][1] if it2.returns else None
         ok_shape = ok_nb = ok_gray = False
         detail = 'no DataArray returned'
@@ -240,23 +260,49 @@ def run(ctx: Context) -> None:
                   construct=f"mean: {callee(ctx, b2, means[0]) if means else 'absent'}")
         # sandwiched cells and cells with nan corners
         from ..pattern import Matcher
-        mb2 = Matcher(ctx, b2)
-        ok = mb2.has('$nan = numpy.isnan($vals)',
-                     '$jp = numpy.pad($nan, ((1, 1), (0, 0)), constant_values=False)',
-                     '$ip = numpy.pad($nan, ((0, 0), (1, 1)), constant_values=False)')
+        # every `name = numpy.isnan(values)` of the function is a candidate for the missing-centre mask
+        masks = [(n.targets[0].id, n.value.args[0].id) for n in walk_no_nested(b2.node) if isinstance(n, ast.Assign) and isinstance(n.targets[0], ast.Name)
+                 and isinstance(n.value, ast.Call) and callee(ctx, b2, n.value) == 'numpy.isnan' and len(n.value.args) == 1 and isinstance(n.value.args[0], ast.Name)]
+        ok = False
         sand_st = None
-        if ok:
+        vals_name = None
+        for mname, vname in masks:
+            mb2 = Matcher(ctx, b2, bindings={'nan': mname, 'vals': vname})
+            if not mb2.has('$jp = numpy.pad($nan, ((1, 1), (0, 0)), constant_values=False)',
+                           '$ip = numpy.pad($nan, ((0, 0), (1, 1)), constant_values=False)'):
+                continue
             for alt in ('$vals[$jp[:-2, :] & $jp[2:, :] | $ip[:, :-2] & $ip[:, 2:]] = numpy.nan',
                         '$vals[$ip[:, :-2] & $ip[:, 2:] | $jp[:-2, :] & $jp[2:, :]] = numpy.nan',
                         '$vals[$jp[:-2] & $jp[2:] | $ip[:, :-2] & $ip[:, 2:]] = numpy.nan'):
                 sand_st = sand_st or mb2.stmt(alt)
+            if sand_st is not None:
+                ok, vals_name = True, vname
+                break
         ctx.check('R06.3', ok and sand_st is not None, "only a centre with missing neighbours on both sides of an axis is discarded", b2, sand_st or b2.node,
                   construct=f"sandwich test: {norm_text(sand_st) if sand_st is not None else 'not recognised'}")
-        blank = [mb2.stmt('$cn = numpy.isnan($bounds).any(axis=2)') or mb2.stmt('$cn = numpy.isnan($bounds).any(axis=-1)')]
-        blank = [b_ for b_ in blank if b_ is not None]
-        ok = bool(blank) and mb2.stmt('$bounds[$cn] = numpy.nan') is not None
-        ctx.check('R06.3', ok, "a cell with any missing corner gets no polygon (all four corners blanked)", b2, blank[0] if blank else b2.node,
-                  construct=f"blanking: {norm_text(blank[0]) if blank else 'absent'}")
+        blank = None
+        own = False
+        for mname, vname in masks:
+            if vname != vals_name or blank is not None:
+                continue
+            mb3 = Matcher(ctx, b2, bindings={'nan': mname})
+            for alt in ('$cn = numpy.isnan($bounds).any(axis=2) | $nan', '$cn = numpy.isnan($bounds).any(axis=-1) | $nan',
+                        '$cn = $nan | numpy.isnan($bounds).any(axis=2)', '$cn = $nan | numpy.isnan($bounds).any(axis=-1)'):
+                if blank is None:
+                    blank = mb3.stmt(alt)
+                    own = blank is not None
+            if blank is not None:
+                mb2 = mb3
+        if blank is None:
+            mb2 = Matcher(ctx, b2)
+            for alt in ('$cn = numpy.isnan($bounds).any(axis=2)', '$cn = numpy.isnan($bounds).any(axis=-1)'):
+                blank = blank or mb2.stmt(alt)
+        ok = blank is not None and mb2.stmt('$bounds[$cn] = numpy.nan') is not None
+        ctx.check('R06.3', ok, "a cell with any missing corner gets no polygon (all four corners blanked)", b2, blank or b2.node,
+                  construct=f"blanking: {norm_text(blank) if blank is not None else 'absent'}")
+        ctx.check('R06.3', ok and own, "a cell whose own centre is missing gets no polygon either: its corners are means of the neighbours' centres, "
+                  "finite for a lone missing cell or a line of them one cell wide", b2, blank or b2.node,
+                  construct=f"blanking covers the missing-centre mask: {own}")
         # make_polygons_with_holes skips rows with a non finite coordinate (R02.3 checks the pairing)
 
     # ------------------------------------------------------------------ R06.4 lookup namespace
@@ -440,6 +486,9 @@ _U = 'src/emsarray/conventions/ugrid.py'
 _B = 'src/emsarray/conventions/_base.py'
 _S = 'src/emsarray/conventions/shoc.py'
 VARIANTS = [
+    V('C06', 'cf2d-centres-in-storage-order', _G, "        coordinate = coordinate.transpose(self.y_dimension, self.x_dimension)\n", "", 'R06.3'),
+    V('C06', 'cf2d-centres-keep-integer-dtype', _G, "        coordinate_values = coordinate.values.astype(numpy.double)", "        coordinate_values = coordinate.values.copy()", 'R06.3'),
+    V('C06', 'cf2d-missing-cell-keeps-polygon', _G, "        cells_with_nans = numpy.isnan(bounds).any(axis=2) | nan_coordinates", "        cells_with_nans = numpy.isnan(bounds).any(axis=2)", 'R06.3'),
     V('C06', 'mesh-bounds-over-all-nodes', 'src/emsarray/conventions/ugrid.py', "        min_x, min_y, max_x, max_y = shapely.total_bounds(self.polygons[self.mask])\n", "        topology = self.topology\n        min_x, max_x = numpy.nanmin(topology.node_x), numpy.nanmax(topology.node_x)\n        min_y, max_y = numpy.nanmin(topology.node_y), numpy.nanmax(topology.node_y)\n", 'R06.7'),
     V('C06', 'cf1d-bowtie', _G, "            lon_bounds[:, 0],\n            lon_bounds[:, 1],\n            lon_bounds[:, 1],\n            lon_bounds[:, 0],", "            lon_bounds[:, 0],\n            lon_bounds[:, 1],\n            lon_bounds[:, 0],\n            lon_bounds[:, 1],", 'R06.1'),
     V('C06', 'arakawa-bowtie', _A, "            grid[:-1, +1:],\n            grid[+1:, +1:],\n            grid[+1:, :-1],", "            grid[:-1, +1:],\n            grid[+1:, :-1],\n            grid[+1:, +1:],", 'R06.1'),
